@@ -62,6 +62,16 @@ def cases(seed, tier):
                 headers.append('  SSH-2.0-indented')
             else:
                 headers.append('hex:' + (b'caf\xc3\xa9 \xff\x00bin' + bytes([rng.randrange(128, 256)])).hex())
+        r2 = gen.case_rng(seed, ID, i, 'long')
+        if r2.random() < 0.1:
+            # lines before the banner have no length limit: one of 256..2000 characters, some with an identification-like text
+            # placed where a bounded reader would cut the line (255 / 256 / 1024)
+            n = r2.choice([256, 300, 700, 1500, 2000])
+            body = ''.join(r2.choice('abcdefghij klmnop') for _ in range(n))
+            cut = r2.choice([255, 256, 1024])
+            if r2.random() < 0.5 and cut + 40 < n:
+                body = body[:cut] + 'SSH-1.5-legacy_gateway retired' + body[cut + 30:]
+            headers.insert(r2.randrange(len(headers) + 1), 'long notice: ' + body if r2.random() < 0.5 else body)
         inside = rng.random() < 0.3
         net = gen.rand_net(rng, inside_lines=inside)
         yield {'proto': proto, 'software': software, 'sep': seps, 'comments': comments, 'inject': inject, 'headers': headers, 'eol': rng.choice(['\r\n', '\r\n', '\n']),
